@@ -6,6 +6,7 @@ import (
 	"go/token"
 	"go/types"
 	"sort"
+	"strconv"
 	"strings"
 
 	"golang.org/x/tools/go/ssa"
@@ -27,6 +28,7 @@ func checkC07(c *Ctx) {
 	c.Rule("C07/R8", ".config in a filter and .unit in a projection are rejected with a syntax error")
 
 	c.Rule("C07/R12", "any string is usable as a quoted literal: every token returned by the quoted-word scanner has the quoted-word kind or is the error token, independent of its text")
+	c.Rule("C07/R15", "values and keywords: the match constructor allocates a match only under token kinds within {word, quoted word, regexp}; the word scanner produces the AND / OR keyword kinds exactly where the word == \"AND\" / \"OR\"")
 	c.Rule("C07/R14", "never a panic by overrun: where the expression scanners test a position against the length of the text (i+g < len) every later read at that base stays within what was tested (no read at i+o with o > g, as happens when the index is stepped between the test and the read)")
 	c.Rule("C07/R13", "never a hang: in the expression parsers a loop that reads tokens from a cursor advances the cursor on every path back to its head")
 	c.Rule("C07/R11", "rejections are positioned: every error returned by NewFilter, ProjectionParser.Parse and their closures is nil, a *parse.SyntaxError built there, or passed on unchanged from ParseFilter/ParseProjection or a recursive call — never a helper's bare error")
@@ -107,6 +109,7 @@ func checkC07(c *Ctx) {
 	c07QuotedKind(c, p)
 	c07Progress(c, p)
 	c07StaleGuards(c, p)
+	c07ValuesAndKeywords(c, p)
 }
 
 // byteIndexOf: v is a byte read s[i] (string Lookup or load of IndexAddr); returns the index value.
@@ -1348,4 +1351,136 @@ func c07StaleGuards(c *Ctx, p *Prog) {
 	} else {
 		c.OK(R, "positive-control", "checker/testdata/lookbehind/lb.go", "matcher fires on the stored stepped-past-the-test read")
 	}
+}
+
+// c07ValuesAndKeywords (C07/R15): (a) the match constructor turns only word, quoted-word and regexp tokens into a match
+// — the token kinds under which it allocates a FilterMatch are within {'w','q','r'}, so an operator can never be taken
+// for a value and "key:" followed by AND/OR stays a syntax error; (b) the bare-word scanner hands out the keyword kinds
+// exactly for the texts AND and OR compared by ==: nothing else (a case-insensitive comparison, a prefix) makes a word
+// a keyword, so and, Or, ANDROID denote themselves.
+func c07ValuesAndKeywords(c *Ctx, p *Prog) {
+	const R = "C07/R15"
+	pk := "benchproc/internal/parse"
+	kindF := p.Field(pk, "tok", "Kind")
+	mk := p.Method(pk, "parser", "mkMatch")
+	if kindF == nil || mk == nil {
+		c.Undecided(R, "anchor:mkMatch/tok.Kind", "", "not found")
+	} else {
+		allocs := func(b *ssa.BasicBlock) bool {
+			for _, in := range b.Instrs {
+				if al, ok := in.(*ssa.Alloc); ok && recvName(al.Type().(*types.Pointer).Elem()) == "FilterMatch" {
+					return true
+				}
+			}
+			return false
+		}
+		kindTest := func(b *ssa.BasicBlock) (int64, bool) {
+			ifi, ok := b.Instrs[len(b.Instrs)-1].(*ssa.If)
+			if !ok {
+				return 0, false
+			}
+			bo, ok := ifi.Cond.(*ssa.BinOp)
+			if !ok || bo.Op != token.EQL {
+				return 0, false
+			}
+			if f, _ := loadOfField(bo.X); f != kindF {
+				return 0, false
+			}
+			return constInt(bo.Y)
+		}
+		accepted := map[int64]bool{}
+		for _, b := range mk.Blocks {
+			k, ok := kindTest(b)
+			if !ok {
+				continue
+			}
+			seen := map[*ssa.BasicBlock]bool{}
+			work := []*ssa.BasicBlock{b.Succs[0]}
+			for len(work) > 0 {
+				x := work[len(work)-1]
+				work = work[:len(work)-1]
+				if seen[x] {
+					continue
+				}
+				seen[x] = true
+				if allocs(x) {
+					accepted[k] = true
+					break
+				}
+				if _, isTest := kindTest(x); isTest {
+					continue
+				}
+				work = append(work, x.Succs...)
+			}
+		}
+		var got []string
+		bad := ""
+		for k := range accepted {
+			got = append(got, fmt.Sprintf("%q", rune(k)))
+			if k != 'w' && k != 'q' && k != 'r' {
+				bad += fmt.Sprintf(" %q", rune(k))
+			}
+		}
+		sort.Strings(got)
+		c.Check(bad == "" && len(accepted) >= 2, R, "mkMatch:value-kinds", p.pos(mk.Pos()), "a match is built from tokens of kind "+strings.Join(got, ", "),
+			"the match constructor builds a match from tokens of kind"+bad+" (accepted: "+strings.Join(got, ", ")+"): an operator keyword right after 'key:' is swallowed as the value, so 'a: OR b:c' — a term lacking its value — is accepted instead of being rejected")
+	}
+	// (b) keywords
+	n := 0
+	for _, fn := range p.Funcs(pk) {
+		if fn.Signature.Recv() == nil || recvName(fn.Signature.Recv().Type()) != "tokenizer" {
+			continue
+		}
+		// the scanner that can return the keyword kinds
+		makes := false
+		eachInstr(fn, func(_ *ssa.BasicBlock, in ssa.Instruction) {
+			if call, ok := in.(*ssa.Call); ok {
+				for _, a := range call.Call.Args {
+					if k, ok := constInt(a); ok && (k == 'A' || k == 'O') && isInteger(a.Type()) {
+						if b, ok := a.Type().Underlying().(*types.Basic); ok && (b.Kind() == types.Uint8 || b.Kind() == types.Int32 || b.Kind() == types.UntypedRune) {
+							makes = true
+						}
+					}
+				}
+			}
+		})
+		if !makes {
+			continue
+		}
+		eachInstr(fn, func(b *ssa.BasicBlock, in ssa.Instruction) {
+			call, ok := in.(*ssa.Call)
+			if !ok {
+				return
+			}
+			var kind int64
+			for _, a := range call.Call.Args {
+				if k, ok := constInt(a); ok && (k == 'A' || k == 'O') {
+					if bt, ok := a.Type().Underlying().(*types.Basic); ok && (bt.Kind() == types.Uint8 || bt.Kind() == types.Int32) {
+						kind = k
+					}
+				}
+			}
+			if kind == 0 {
+				return
+			}
+			n++
+			want := map[int64]string{'A': "AND", 'O': "OR"}[kind]
+			okEq := false
+			for _, f := range factsAt(b) {
+				bo, ok := f.Cond.(*ssa.BinOp)
+				if !ok || !f.True || bo.Op != token.EQL {
+					continue
+				}
+				if s, ok := constString(bo.Y); ok && s == want && isString(bo.X.Type()) {
+					okEq = true
+				}
+				if s, ok := constString(bo.X); ok && s == want && isString(bo.Y.Type()) {
+					okEq = true
+				}
+			}
+			c.Check(okEq, R, fmt.Sprintf("%s:keyword %s", fnName(fn), want), p.pos(call.Pos()), "the keyword kind is produced where the word == "+strconv.Quote(want),
+				"the "+want+" keyword token is produced without the word having been compared with "+strconv.Quote(want)+" by ==: other spellings (and, Or, And) stop denoting themselves as keys, values and list words")
+		})
+	}
+	c.Floor(R, "keyword tokens produced by the word scanner", n, 2)
 }
